@@ -40,6 +40,10 @@ POOL = {
     23: 'W:\n    nop\n    j W\n',
     24: '    mv x5, Q9\n',
     25: 'Q9 = 7\n    addi x5, x0, Q9\n',
+    # a program with string / error-message lexing, and expressions over which CPython itself emits a SyntaxWarning
+    31: 'msg:\n    string hello\\n\n    db 0\n',
+    32: 'FLAG = 1\nVALUE = 10 if FLAG is 1 else 20\n    addi x5, x0, VALUE\n',
+    33: '    li x5, 5if 1 else 2\n',
 }
 # programs that are file TREES: the same file name in several searched directories, nested includes with same-named neighbours.
 # POOL holds a marker; the tree is materialised once under the scratch directory and assembled by path with -i directories.
@@ -120,6 +124,12 @@ def tables_digest(a):
                                  for k, x in v.items())).encode())
         else:
             h.update(repr(sorted(v)).encode())
+    # state of the interpreter itself that a library call has no business changing
+    import logging
+    import warnings
+    h.update(repr([(f[0], str(f[1]), getattr(f[2], '__name__', f[2]), str(f[3]), f[4]) for f in warnings.filters]).encode())
+    h.update(repr((sys.getrecursionlimit(), os.getcwd(), list(sys.path), sorted(os.environ.items()), logging.getLogger().level,
+                   len(logging.getLogger().handlers), logging.getLogger('bronzebeard').level, sys.get_int_max_str_digits())).encode())
     return h.hexdigest()
 
 
@@ -212,7 +222,7 @@ def _cli_seed(args):
 def c16(run, scratch):
     cfg = os.path.join(scratch, 'sess.cfg')
     pool = set(POOL)
-    pool3 = {1, 6, 13, 22, 29, 30} if run.tier == 'quick' else {1, 2, 3, 4, 6, 8, 10, 12, 13, 14, 17, 18, 21, 22, 24, 25, 26, 27, 28, 29, 30}
+    pool3 = {1, 6, 13, 22, 29, 30, 31, 32} if run.tier == 'quick' else {1, 2, 3, 4, 6, 8, 10, 12, 13, 14, 17, 18, 21, 22, 24, 25, 26, 27, 28, 29, 30, 31, 32, 33}
     tlc.write_cfg(cfg, spec='Spec', constants={'Pool': pool, 'Pool3': pool3, 'MaxLen': 3 if run.tier == 'quick' else 4},
                   invariants=['Export'], properties=['TablesConstant'])
     materialise_trees(os.path.join(scratch, 'trees'))
